@@ -46,6 +46,10 @@ def inner_graph(kind, mapped, fail_vals=(), branch_vals=()):
         nodes = [IR.func("F", [m0], ["p"]), IR.func("H", ["p", "b"] + list(mapped[1:]), ["q"], fail_args=[f"F.p({m0}={v})" for v in fail_vals])]
     elif kind == "multi":
         nodes = [IR.func("F", ins, ["p", "r"], fail_args=list(fail_vals))]
+    elif kind == "signal":
+        # an ordering signal inside the mapped graph: it orders H after F in every item and is not a value of the map
+        nodes = [IR.normalize_node(dict(name="F", kind="func", inputs=sorted(mapped), outputs=["p", "sig"], ndata=1, fail_args=list(fail_vals))),
+                 IR.normalize_node(dict(name="H", kind="func", inputs=["b"], outputs=["q"], wait_for=["sig"]))]
     elif kind == "branch":
         g = IR.route("G", [mapped[0]], ["A", "B"], [["A"]], default_open=False,
                      dec_args=[[v, ["B"]] for v in branch_vals])
@@ -252,7 +256,7 @@ def map_jobs(rng, thorough):
 
 def node_jobs(rng, thorough):
     pairs = []
-    for kind in ("single", "chain", "chain2", "multi", "branch"):
+    for kind in ("single", "chain", "chain2", "multi", "branch", "signal"):
         for mapped in (["x"], ["x", "y"], ["y", "x"]):
             for mode_map in ("zip", "product"):
                 lens_opts = [(n,) for n in range(0, 4)] if len(mapped) == 1 else [(a, b) for a in range(0, 4) for b in range(0, 4) if mode_map == "product" or a == b]
